@@ -33,8 +33,8 @@ CHECKS['C07'] = dict(
           'model is tied to pool.py by running the real Pool.run with scripted fake workers on real pipes over all schedules of small '
           'configurations plus random ones and comparing every outcome (including blocked prefixes) with the model evaluated in Coq.'),
     design='5/C07',
-    note=('Known findings (excluded domains): a refusing user enqueue_fn (livelock, proved as C07_refuted_...) and run() on a pool with no live '
-          'worker (returns None). Termination for every fair environment is not yet a theorem (only: the nested re-dispatch cannot raise an '
+    note=('Known finding (excluded domain): a refusing user enqueue_fn (livelock, proved as C07_refuted_...); run() on a pool with no live '
+          'worker used to return None - repaired in /repo, the outcome no longer exists in the model. Termination for every fair environment is not yet a theorem (only: the nested re-dispatch cannot raise an '
           'internal error); a worker that neither answers nor dies is outside the property. The model is hand-written: its tie to pool.py is the '
           'differential harness only. ' + COMMON_NOTE),
     technique='machine-checked invariant proof (Coq) over a hand-written model + exhaustive small-scope differential correspondence',
@@ -71,7 +71,8 @@ CHECKS['C05'] = dict(
           'end marker and closes); an interpreter in Coq gives them meaning over mutable argument values. Theorems: for every defaults (list or '
           'tuple), default kwargs and enqueue sequence, and every target (also one that mutates all its arguments), each kind writes result k = '
           'f(merge(pristine defaults, enqueue k)) numbered k and then exactly one end marker; merge laws; for every parent-side history of '
-          'enqueue/next_result/call/close/wait the delivered values are a prefix in order of the accepted enqueues. Real workers are run on '
+          'enqueue/next_result/call/close/wait - and of inputs on which the target raises, so that the worker dies on its own - the delivered values are a prefix in order of the accepted enqueues, '
+          'and an enqueue after close or death is refused, also as the first thing done with the dead worker (the guard of each kind\'s enqueue is regenerated from the source; refutation for a guard trusting the cached flag). Real workers are run on '
           'generated cases and histories and compared with the model (thread kind in quick, all kinds in thorough).'),
     design='5/C05',
     note=('Values are tokens with a mutation count; deepcopy/list()/aliasing are modelled as three copy kinds read from the source. The parent API '
@@ -229,8 +230,8 @@ CHECKS['C11'] = dict(
 CHECKS['C18'] = dict(
     text=('The duplicate / unknown-id / delete decisions of RemoteServer.run are read off the source on every run (Gen/ServerLoop.v) and parameterise the table model; refutation for an overwriting duplicate. Proof over the same server model: creating an id that exists is refused and changes nothing about the existing one, creating a free id '
           'registers it, deleting frees the id and leaves every other id alone (also for unknown ids), a worker request naming an unknown context is '
-          'answered by closing and changes nothing, the server survives every history. Histories over three ids of create / duplicate create / '
-          'delete / delete unknown / worker in context / worker in unknown context run through the REAL RemoteContext and PersistentRemoteWorker API '
+          'answered by closing and changes nothing, the server survives every history. Whose work a worker created in a context executes is decided by three cooperating sites (what its creator ships, what the context helper injects, what the child unpacks), read off the source on every run (Gen/CtxWork.v): theorem - it executes the context\'s target with the context\'s defaults whatever its creator passed along; refutation when the creator ships its work and the child prefers it. Histories over three ids of create / duplicate create / '
+          'delete / delete unknown / worker in context (created with target=None, with work of its own, or added by a Pool) / worker in unknown context run through the REAL RemoteContext and PersistentRemoteWorker API '
           'on a fresh server each; replies and the table of registered ids are compared with the model, a call in each context checks that the '
           'worker runs the context\'s target with the context\'s defaults, and after deleting every context the server must have no child process left.'),
     design='5/C18',
@@ -293,7 +294,7 @@ CHECKS['C12'] = dict(
     text=('Proof over Server/Shutdown.v, a model of what becomes of every child process and of every parent\'s data connection when the server is '
           'stopped, parameterised by the SHAPE of the shutdown paths which tools/py2coq regenerates from the source on every run (which registries the '
           'finally loop of RemoteServer.run covers and whether it forces and SIGTERMs survivors, what the SIGTERM handler signals, whether the context '
-          'helper cleans up in a finally and passes SIGTERM on to its workers, whether a forced kill fabricates (False, None)): for EVERY registry (any '
+          'helper cleans up in a finally and passes SIGTERM on to its workers, whether a forced kill fabricates (False, None), whether the registry of direct children only ever grows before the shutdown loops): for EVERY registry (any '
           'number of direct children and contexts holding any number of workers in any state SIGTERM can kill), both ways of stopping, every outcome of '
           'the race inside a context helper that is stopped while forcing a worker, and the server being SIGTERMed after any number of entries because '
           'the caller lost patience: every child is gone and every parent\'s connection has ended with the earlier outcome or an error; children able to '
